@@ -34,9 +34,9 @@ def render(ev):
     if t == "hurry":
         return "%d H" % ev["id"]
     if t == "disconnect":
-        return "%d D" % ev["id"]
+        return ("%d D :%s" % (ev["id"], ev["text"])) if "text" in ev else "%d D" % ev["id"]
     if t == "registered":
-        return "%d T" % ev["id"]
+        return ("%d T :%s" % (ev["id"], ev["text"])) if "text" in ev else "%d T" % ev["id"]
     if t == "reply":
         return "-1 X %s %s :%s" % (ev["svc"], ev["tag"], ev["text"])
     if t == "unlinked":
